@@ -34,15 +34,40 @@ theorem dft2_follows_source_wiring (f : Arr ℂ) (αr αc : ℝ) (M N : ℤ) (sh
     Gen.fwDft2Prod, Gen.fwDft2Scale, Int.ofNat_eq_natCast, CxLike.ofReal, RealLike.sqrt, RealLike.abs]
 
 open ComplexConjugate in
-/-- **`idft2` is the source's plumbing**: `conj(dft2(conj F, α, shape, shift, offset = default (0,0), unitary))`, divided by
-`F.size` exactly when not unitary (`Gen.fwIdft2`, regenerated from `fourier.py`). -/
+/-- **`idft2` is the source's plumbing.** `Gen.fwIdft2` is obtained by evaluating `idft2`'s body symbolically (which array is
+conjugated, which parameter feeds which parameter of `dft2`, the divisor `F.size`, the condition on `unitary`, the default
+offset); the hand model equals it, so conjugating the wrong array, dividing unconditionally or by another size, or passing
+`shift` for `shape` changes the generated definition and breaks this theorem. -/
 theorem idft2_follows_source_wiring (F : Arr ℂ) (αr αc : ℝ) (M N : ℤ) (shr shc : ℝ) (unitary : Bool) (i j : ℤ) :
     (idft2 F αr αc M N shr shc unitary).get i j =
       Gen.fwIdft2 (starRingEnd ℂ) (fun z n => z / (n : ℂ))
-        (fun G un a b => (dft2 { F with get := G } αr αc M N shr shc Gen.fwIdft2Offset.1 Gen.fwIdft2Offset.2 un).get a b)
-        F.get F.s0 F.s1 unitary i j := by
+        (fun G (al : ℝ × ℝ) (sh : ℤ × ℤ) (sf : ℝ × ℝ) un a b =>
+          (dft2 { F with get := G } al.1 al.2 sh.1 sh.2 sf.1 sf.2 Gen.fwIdft2Offset.1 Gen.fwIdft2Offset.2 un).get a b)
+        F.get F.s0 F.s1 (αr, αc) (M, N) (shr, shc) unitary i j := by
   unfold idft2 Gen.fwIdft2
   simp only [Gen.fwIdft2Offset, CxLike.conj, CxLike.divInt]
+
+/-- **defining sum of the inverse transform.** For every array, real samplings, output shape, real shifts and both flags:
+`idft2` is the double sum `Σ_u Σ_v F[u,v]·exp(+2πi(αr·U·X + αc·V·Y))` with `U = u − ⌊m/2⌋` (input origin at `⌊n/2⌋`, no
+offset), `X = i − ⌊M/2⌋ − shift_r`, multiplied by `√|αr αc|` when unitary and by `1/F.size` otherwise. -/
+theorem idft2_eq_defining_sum (F : Arr ℂ) (αr αc : ℝ) (M N : ℤ) (shr shc : ℝ) (unitary : Bool) (i j : ℤ) :
+    (idft2 F αr αc M N shr shc unitary).get i j =
+      (if unitary then ((Real.sqrt |αr * αc| : ℝ) : ℂ) else 1 / ((F.s0 * F.s1 : ℤ) : ℂ)) *
+      ∑ u ∈ range F.s0.toNat, ∑ v ∈ range F.s1.toNat, F.get u v *
+        Complex.exp ((2 * Real.pi * Complex.I) *
+          ((αr * (((u : ℤ) - F.s0 / 2 : ℤ) : ℝ) * (((i - M / 2 : ℤ) : ℝ) - shr)
+            + αc * (((v : ℤ) - F.s1 / 2 : ℤ) : ℝ) * (((j - N / 2 : ℤ) : ℝ) - shc) : ℝ) : ℂ)) := by
+  rw [idft2_get_eq]
+  congr 1
+  rw [sum_comm]
+  refine sum_congr rfl fun v _ => ?_
+  rw [sum_mul]
+  refine sum_congr rfl fun u _ => ?_
+  rw [conj_ker, conj_ker, mul_comm (Complex.exp _) (F.get _ _), mul_assoc, ← Complex.exp_add]
+  congr 2
+  simp only [cc]
+  push_cast
+  ring
 
 /-- **defining sum.** For every input array, real samplings `αr`, `αc` (independent), output shape, real shifts, integer
 offsets, both flags and every output index `(u, v)`: the triple product `E1·f·E2` is the double sum over input samples of
@@ -140,6 +165,30 @@ theorem idft2_dft2_full_period (f : Arr ℂ) (m n : ℕ) (hm : f.s0 = m) (hn : f
   · simp only [Bool.false_eq_true, if_false]; push_cast; field_simp
   · simp only [if_true]
     rw [← mul_assoc, ← Complex.ofReal_mul, sqrt_abs_inv_mul_self m n hm0 hn0]
+    push_cast; field_simp
+
+open ComplexConjugate in
+/-- **inversion of an oversampled period.** Forward transform with `α = (1/K, 1/L)` onto `K × L` samples, `K ≥ m`, `L ≥ n` (the
+input zero-padded to one period in effect), inverse transform with the same sampling and flag back onto the input shape
+`m × n`: `idft2 (dft2 f) = f` at every sample. (`K = m`, `L = n` is `idft2_dft2_full_period`.) -/
+theorem idft2_dft2_oversampled (f : Arr ℂ) (m n K L : ℕ) (hm : f.s0 = m) (hn : f.s1 = n) (hK : 0 < K) (hL : 0 < L)
+    (hmK : m ≤ K) (hnL : n ≤ L) (unitary : Bool) (x y : ℕ) (hx : x < m) (hy : y < n) :
+    (idft2 (dft2 f (1 / (K : ℝ)) (1 / (L : ℝ)) K L 0 0 0 0 unitary) (1 / (K : ℝ)) (1 / (L : ℝ)) m n 0 0 unitary).get x y
+      = f.get x y := by
+  rw [idft2_get_eq]
+  simp only [dft2C_s0, dft2C_s1, Int.toNat_natCast, dft2_get_eq]
+  rw [pull_const]
+  unfold dft2Sum
+  simp only [hm, hn, Int.toNat_natCast]
+  simp only [ker_swap]
+  rw [inv2 m n K L (fun x u => ker (1 / K) m K 0 0 x u) (fun y v => ker (1 / L) n L 0 0 y v)
+    (orth_ker m K hK hmK m 0 0) (orth_ker n L hL hnL n 0 0) (fun x y => f.get x y) x y hx hy]
+  have hK' : (K : ℂ) ≠ 0 := by exact_mod_cast hK.ne'
+  have hL' : (L : ℂ) ≠ 0 := by exact_mod_cast hL.ne'
+  cases unitary
+  · simp only [Bool.false_eq_true, if_false]; push_cast; field_simp
+  · simp only [if_true]
+    rw [← mul_assoc, ← Complex.ofReal_mul, sqrt_abs_inv_mul_self K L hK hL]
     push_cast; field_simp
 
 /-- **Parseval, forward.** Under the unitary flag, over one full period (`α = (1/m, 1/n)`, output shape = input shape; any
